@@ -5,6 +5,7 @@ cd "$(dirname "$0")"
 export CARGO_NET_OFFLINE=true
 mkdir -p work evidence
 python3 tools/gen_constants.py > /dev/null
+python3 tools/gen_leaf.py > /dev/null
 sh coq/gen_project.sh
 # build the targets of the claimed properties (a work-in-progress file of an unclaimed
 # property must not break setup)
@@ -14,7 +15,7 @@ t=[]
 for f in sorted(glob.glob('props/C*.json')):
     c=json.load(open(f))
     if c.get('claimed',True):
-        t += [c['coq_target'], 'Run/%s.vo' % c['run_module']]
+        t += [c['coq_target'], 'Run/%s.vo' % c['run_module']] + c.get('leaf_targets', [])
 print(' '.join(t))
 PY
 )
